@@ -39,12 +39,13 @@ type Ctx struct {
 
 	stats LoadStats
 
-	modFuncs  []*ssa.Function
-	sites     *siteIndex
-	modref    map[*ssa.Function]map[string]bool
-	fieldLen  map[string]int64
-	summaries map[*ssa.Function][]resultSummary
-	impls     map[*types.Func][]*ssa.Function
+	modFuncs   []*ssa.Function
+	sites      *siteIndex
+	modref     map[*ssa.Function]map[string]bool
+	fieldLen   map[string]int64
+	summaries  map[*ssa.Function][]resultSummary
+	impls      map[*types.Func][]*ssa.Function
+	bitsMasked int
 }
 
 type LoadStats struct {
